@@ -98,7 +98,8 @@ def run(ctx):
         if len(j["records"]) != len(cases):
             raise vf.ToolError("harness wrote %d records for %d cases" % (len(j["records"]), len(cases)))
         all_recs += j["records"]
-    self_test(ctx, all_recs)
+    if not ctx.violations:      # anti-vacuity of the judge; pointless (and short of clean records) once the run has failed
+        self_test(ctx, all_recs)
     ctx.cov["commits_per_backend"] = sum(1 for x in cases if x["kind"] == "commit")
     ctx.cov["trees_per_backend"] = sum(1 for x in cases if x["kind"] == "tree")
     ctx.cov["blobs_per_backend"] = sum(1 for x in cases if x["kind"] == "blob")
